@@ -178,6 +178,10 @@ fn whole<T: VE, N: ArrayLength>(api: &str, n: usize) {
         "deref_mut" => mutable!(&mut *a),
         "asmut_slice" => mutable!(AsMut::<[T]>::as_mut(&mut a)),
         "borrow_mut" => mutable!(BorrowMut::<[T]>::borrow_mut(&mut a)),
+        "index" | "index_mut" | "get" => {
+            // l carries the index
+            panic!("HARNESS: index apis are dispatched in index_views")
+        }
         "iter" | "ref_into_iter" => {
             let parts: Vec<(i64, i64)> = if api == "iter" { a.iter().map(|e| src.part(e as *const T, 1)).collect() } else { (&a).into_iter().map(|e| src.part(e as *const T, 1)).collect() };
             log_view(api, n, n, 0, 0, "ok", &parts, -1, src.esize);
@@ -202,6 +206,40 @@ fn whole<T: VE, N: ArrayLength>(api: &str, n: usize) {
             log_read(0, &nums(a.as_slice()));
         }
         _ => panic!("HARNESS: views whole api {}", api),
+    }
+}
+
+/// a[i], a[i] = x, a.get(i) through Deref / DerefMut
+fn index_views<T: VE, N: ArrayLength>(api: &str, n: usize, i: usize) {
+    let mut a: GenericArray<T, N> = fill::<T, N>();
+    let src = Src::of(&a as *const _ as *const T);
+    log_src(&nums(a.as_slice()), src.esize);
+    match api {
+        "index" => match catch_unwind(AssertUnwindSafe(|| &a[i] as *const T)) {
+            Ok(p) => {
+                log_view(api, n, i, 0, 0, "ok", &[src.part(p, 1)], -1, src.esize);
+                log_read(1, &[unsafe { &*p }.num()]);
+            }
+            Err(_) => log_view(api, n, i, 0, 0, "panic", &[], -1, src.esize),
+        },
+        "get" => match a.get(i) {
+            Some(r) => {
+                log_view(api, n, i, 0, 0, "ok", &[src.part(r as *const T, 1)], -1, src.esize);
+                log_read(1, &[r.num()]);
+            }
+            None => log_view(api, n, i, 0, 0, "err", &[], -1, src.esize),
+        },
+        _ => {
+            let p: *mut GenericArray<T, N> = &mut a;
+            match catch_unwind(AssertUnwindSafe(|| unsafe { &mut (&mut *p)[i] as *mut T })) {
+                Ok(q) => {
+                    log_view(api, n, i, 0, 0, "ok", &[src.part(q as *const T, 1)], -1, src.esize);
+                    poke(1, unsafe { std::slice::from_raw_parts_mut(q, 1) }, 0, 12000 + i as i64);
+                    log_read(0, &nums(a.as_slice()));
+                }
+                Err(_) => log_view(api, n, i, 0, 0, "panic", &[], -1, src.esize),
+            }
+        }
     }
 }
 
@@ -520,6 +558,7 @@ fn run_one<T: VE>(d: &J) {
     let bad = || -> () { panic!("HARNESS: views: unsupported lengths {:?}", d) };
     match api {
         "as_slice" | "deref" | "asref_slice" | "borrow" | "as_mut_slice" | "deref_mut" | "asmut_slice" | "borrow_mut" | "iter" | "ref_into_iter" | "iter_mut" | "mut_into_iter" => with_len!(n, N => whole::<T, N>(api, n), bad()),
+        "index" | "index_mut" | "get" => with_len!(n, N => index_views::<T, N>(api, n, l), bad()),
         "asref_array" | "asmut_array" | "from_array_ref" | "from_array_mut" => with_const!(n, C, N => native_views::<T, N, C>(api), bad()),
         "from_chunks" | "from_chunks_mut" | "into_chunks" | "into_chunks_mut" => with_const!(n, C, N => chunk_casts::<T, N, C>(api, m), bad()),
         "from_slice" | "try_from_slice" | "tryfrom_ref" | "from_mut_slice" | "try_from_mut_slice" | "tryfrom_mut" => with_len!(n, N => from_slice::<T, N>(api, n, l), bad()),
